@@ -44,8 +44,11 @@ TRUSTED = ["/bin/dash and /bin/bash as installed (the shell models shEval / shEv
            "`env -0` (GNU coreutils) reports the shell's exported environment; the variables the shells maintain "
            "themselves (_ PWD OLDPWD SHLVL) are ignored"]
 ASSUMPTIONS = ["variable names are identifiers and not variables the shells treat specially (IFS, PS1, UID, BASH*, LC_*, ...)",
-               "values in the claim are over [A-Za-z0-9/._:+=,@%^-] plus space, tab, newline and < > | & ; ( ); quote "
-               "characters, $, backquote, backslash, ~, braces, glob characters, ! and # are outside the claim",
+               "values in the claim are over [A-Za-z0-9/._:+=,@%^-] plus space, tab, newline and < > | & ; ( ), or - the class "
+               "eups single-quotes - any value without a single quote that holds a character of [\\s<>|&;()] and is not already "
+               "wrapped in quotes ($NAME, ${NAME}, backquotes, backslashes, double quotes, ~, braces, glob characters are literal "
+               "inside the quotes); values with $, backquote, backslash, quote characters etc. that eups does NOT quote are "
+               "outside the claim (eups deliberately passes them to the shell)",
                "alias values in the claim are plain command lines (words over the safe characters separated by blanks, "
                "the first not a reserved word); other alias values are passed to the shell as they are (eups does not "
                "quote them) and are compared with shEvalF only where its fragment reaches (\"$@\", $@, single quotes, "
@@ -129,6 +132,8 @@ def gen_value(rng, claim=True):
     r = rng.random()
     if r < 0.06:
         return ""
+    if claim and rng.random() < 0.12:
+        return gen_quoted_special(rng)
     if r < 0.30:        # plain path-like text
         v = "".join(rng.choice(SAFE) for _ in range(rng.randint(1, 12)))
     elif r < 0.50:      # path with blanks and metacharacters in a directory name
@@ -161,8 +166,48 @@ def gen_value(rng, claim=True):
     return v
 
 
+SPECIAL_BITS = ["$ORIGIN", "${ORIGIN}", "$HOME", "${PRODUCT_DIR}", "$", "$$", "`", "`true`", "\\", "\\n", "\\$", "\"", "\"x\"", "~", "{a,b}",
+                "*", "?", "[ab]", "!", "#", "$(true)", "${X:-y}", "\\\\"]
+
+
+def gen_quoted_special(rng):
+    """A value that eups single-quotes (it holds a blank or one of < > | & ; ( )) and that ALSO holds text the shell would
+    expand or unquote were it not inside single quotes: $NAME, ${NAME}, a backquote, a backslash sequence, a double
+    quote.  No single quote.  E.g. `-L${PRODUCT_DIR}/lib -Wl,-rpath,$ORIGIN/../lib`, `(tool) $ `."""
+    if rng.random() < 0.25:
+        return rng.choice(["-L${PRODUCT_DIR}/lib -Wl,-rpath,$ORIGIN/../lib", "(tool) $ ", "a \\ b", "say \"hi\" > `tty`", "$HOME/my dir",
+                           "x;$y", "\\n <nl>", "${A} ${B}", "cost: $5 & up", "a`b c", "\" \""])
+    parts = []
+    for _ in range(rng.randint(2, 5)):
+        r = rng.random()
+        if r < 0.4:
+            parts.append(rng.choice(SPECIAL_BITS))
+        elif r < 0.7:
+            parts.append("".join(rng.choice(SAFE) for _ in range(rng.randint(1, 5))))
+        else:
+            parts.append(rng.choice(META))
+    if not any(c in META for p_ in parts for c in p_):
+        parts.insert(rng.randint(0, len(parts)), rng.choice(" <>|&;()"))
+    if not any(p_ in SPECIAL_BITS for p_ in parts):
+        parts.insert(rng.randint(0, len(parts)), rng.choice(SPECIAL_BITS))
+    v = "".join(parts)
+    if re.search(r"^['\"].*['\"]$", v):       # would be taken for an already quoted value
+        v = "x" + v
+    return v
+
+
 def in_alphabet(v):
     return all(c in SAFE or c in META for c in v)
+
+
+def quoted_literal(v):
+    """eups single-quotes the value (non-empty, not already wrapped in quotes, holds a character of [\\s<>|&;()]) and the
+    value holds no single quote: inside the quotes every character is literal for an sh-family shell, $ ` \\ " included"""
+    return bool(v) and not re.search(r"^['\"].*['\"]$", v) and bool(re.search(r"[\s<>|&;()]", v)) and "'" not in v
+
+
+def in_claim_value(v):
+    return in_alphabet(v) or quoted_literal(v)
 
 
 def gen_env(rng, n, claim=True):
@@ -281,6 +326,8 @@ def gen_acts(rng):
             continue
         if r < 0.5:
             v = gen_value(rng) if rng.random() < 0.85 else ""
+            while "${" in v or "$?" in v:       # the table's own variable syntax: expanded by Action.execute (C12's business)
+                v = gen_value(rng)
             if "-f" == v or v.startswith("-f"):
                 v = "x" + v
             text = v if (v or rng.random() < 0.5) else "$?{C05_NOT_DEFINED}"
@@ -336,7 +383,9 @@ def gen_stack(rng):
         if rng.random() < 0.4:
             lines.append("envAppend(LD_LIBRARY_PATH, ${PRODUCT_DIR}/lib)")
         if rng.random() < 0.3:
-            lines.append("envSet(%s_OPTS, \"%s\")" % (name.upper(), rng.choice(["-O2 -g", "a;b", "x|y", "(z)", "k=v w"])))
+            lines.append("envSet(%s_OPTS, \"%s\")" % (name.upper(), rng.choice(
+                ["-O2 -g", "a;b", "x|y", "(z)", "k=v w", "-L${PRODUCT_DIR}/lib -Wl,-rpath,$ORIGIN/../lib", "(tool) $ ",
+                 "-Wl,-rpath,$ORIGIN/../lib -O2", "cost $5 (approx)", "say `tty` > x", "a \\\\ b", "$HOME/my dir"])))
         if rng.random() < 0.25:
             lines.append("addAlias(%s_ls, ls -l)" % name)
         if i + 1 < n:
@@ -1037,7 +1086,18 @@ def shell_safe(case, out):
     """May the text be handed to a real shell at all?  (Not the claim: it only keeps command substitutions, which
     could run anything, away from the machine.)"""
     text = ";\n".join(out["cmds"])
-    return "`" not in text and "$(" not in text
+    if "`" not in text and "$(" not in text:
+        return True
+    # backquotes / $( ) that come from generated values of the quoted class are harmless whatever the emitter does with
+    # them (`true`, $(true), a lone backquote); anything else (alias bodies with `eups_setup ...`) stays away from the shells
+    vals = [v for _, v in out.get("cur", [])]
+    rest = text
+    for v in vals:
+        if ("`" in v or "$(" in v) and all(b not in v.replace("`true`", "").replace("$(true)", "") for b in ("$(",)) and \
+                v.replace("`true`", "").count("`") <= 1:
+            rest = rest.replace(v, "")
+    al = [v for _, v in (out.get("aliases") or case.get("aliases") or [])]
+    return "`" not in rest and "$(" not in rest and not any("`" in v or "$(" in v for v in al)
 
 
 def _mute():
@@ -1107,7 +1167,7 @@ def expected_after_sourcing(base, computed, is_eups):
     return exp
 
 
-def claim_of(base, old_after, computed):
+def claim_of(base, old_after, computed, alphabet_only=False):
     """Is this delta inside the property's quantifier?  Names identifiers and not shell-special; every value that
     has to be written (new, changed, or re-exported because --force forgot the old value) over the claimed alphabet."""
     b = dict(base)
@@ -1115,7 +1175,7 @@ def claim_of(base, old_after, computed):
     for k, v in computed:
         if not re.match(r"^[A-Za-z_][A-Za-z0-9_]*$", k) or SPECIAL.match(k):
             return False
-        if oa.get(k) != v and not in_alphabet(v):
+        if oa.get(k) != v and not (in_alphabet(v) if alphabet_only else in_claim_value(v)):
             return False
     for k in b:
         if not re.match(r"^[A-Za-z_][A-Za-z0-9_]*$", k) or SPECIAL.match(k):
@@ -1133,6 +1193,9 @@ def check_delta(ctx, case, inp, base, old_after, computed, shells, is_eups, mode
     if any(k in dict(computed) or k in dict(base) for k in alias_names):
         ctx.hist("delta:alias-named-like-variable")
     ctx.hist("delta:in-claim")
+    oa_ = dict((k, v) for k, v in old_after)
+    if any(oa_.get(k) != v and quoted_literal(v) and not in_alphabet(v) for k, v in computed):
+        ctx.hist("delta:quoted-value-with-shell-special-text")
     exp = expected_after_sourcing(base, computed, is_eups)
     for sh, got in shells.items():
         if got != exp:
@@ -1495,7 +1558,8 @@ def evaluate(ctx, cases):
             if claim_of(base, io_["old"], io_["cur"]):
                 check_functions(ctx, inp, io_["funcs0"], io_.get("aliases", c.get("aliases", [])),
                                 io_.get("oldAliases", c.get("oldAliases", [])), io_["shellsF"], o["noaction"], io_cmp)
-                if o["noaction"]:
+                # under -n the commands sit inside echo "...": $, backquote, backslash and double quote are not literal there
+                if o["noaction"] and claim_of(base, io_["old"], io_["cur"], alphabet_only=True):
                     check_noaction(ctx, inp, base, io_["funcs0"], io_["shellsF"], io_cmp, plain=io_.get("plain_cmds"))
             if not o["noaction"]:
                 check_delta(ctx, c, inp, base, io_["old"], io_["cur"], io_["shells"], o["isEups"], mo, io_cmp,
@@ -1576,6 +1640,9 @@ def run(ctx):
     if h.get("cli:failure-sourced", 0) < 10 or h.get("cli:status=0", 0) < 10 or h.get("cli:status=3/silent", 0) < 2:
         raise common.InfraError("degenerate distribution: command-line cases: %d failures sourced, %d successes, %d usage errors"
                                 % (h.get("cli:failure-sourced", 0), h.get("cli:status=0", 0), h.get("cli:status=3/silent", 0)))
+    if h.get("delta:quoted-value-with-shell-special-text", 0) < 150:
+        raise common.InfraError("degenerate distribution: %d deltas write a quoted value that also holds $NAME, a backquote, a "
+                                "backslash or a double quote" % h.get("delta:quoted-value-with-shell-special-text", 0))
     if h.get("quoted-value", 0) < 0.2 * max(1, h.get("kind=emit", 0)):
         raise common.InfraError("degenerate distribution: %d cases with a quoted value" % h.get("quoted-value", 0))
 
